@@ -35,17 +35,19 @@ let tok_of tbl w = match w with
           | 'o' -> TOther (n_of_int (int_of_string (tail w)))
           | _ -> failwith ("bad token " ^ w))
 
+let unhex_name s = List.init (String.length s) (fun i -> n_of_int (Char.code s.[i]))
 let rec show = function
   | RNil -> "N"
   | RTok i -> "T" ^ string_of_int (int_of_nat i)
   | RList l -> "[" ^ String.concat "" (List.map (fun x -> " " ^ show x) l) ^ " ]"
-  | RVal _ -> "V" | RApp (_, _, _) -> "A"
+  | RVal _ -> "W" | RApp (_, _, _) -> "A"
 
 let compile_only = Array.length Sys.argv > 1 && Sys.argv.(1) = "compile"
 let () =
   try while true do
     let line = input_line stdin in
-    let (g, inp) = (match String.split_on_char '\t' line with [g; i] -> (g, i) | [g] -> (g, "") | _ -> failwith "bad line") in
+    let (g, inp, rpspec) = (match String.split_on_char '\t' line with
+        | [g; i; r] -> (g, i, r) | [g; i] -> (g, i, "") | [g] -> (g, "", "") | _ -> failwith "bad line") in
     let scanerr = String.length g > 0 && g.[0] = '!' in
     let g = if scanerr then tail g else g in
     let tbl = Hashtbl.create 16 in
@@ -67,10 +69,31 @@ let () =
            let prod = if is_productive env then "\tP" else "\tN" in
            let size = List.fold_left (fun a o -> match o with Some b -> a + int_of_nat (msize b) | None -> a) 0 env in
            let fuel = (List.length toks + 2) * (List.length env + 2) * (size + 4) in
-           (match match_doc env toks (nat_of_int fuel) doc with
+           let plain = (match match_doc env toks (nat_of_int fuel) doc with
             | Ok ((n, r), false) -> Printf.sprintf "ok %d %s" (int_of_nat n) (show r)
             | Ok ((n, _), true) -> Printf.sprintf "fail %d" (int_of_nat n)
-            | Panic -> "MPANIC" | OutOfFuel -> "FUEL") ^ prod)
+            | Panic -> "MPANIC" | OutOfFuel -> "FUEL") in
+           (* the RetProc-aware model; without rewriters it must agree with the plain one *)
+           let names = List.map fst rs in
+           let specs = List.filter (fun s -> s <> "" && s <> "-") (String.split_on_char ',' rpspec) in
+           let rp_of name = List.fold_left (fun acc sp ->
+               match String.index_opt sp '=' with
+               | Some j when unhex_name (String.sub sp 0 j) = name ->
+                 let k = String.sub sp (j+1) (String.length sp - j - 1) in
+                 let (kind, arg) = (match String.index_opt k ':' with
+                     | Some c -> (String.sub k 0 c, unhex (String.sub k (c+1) (String.length k - c - 1)))
+                     | None -> (k, [])) in
+                 (match kind with
+                  | "id" -> Some RpId | "wrap" -> Some RpWrap
+                  | "rejdyn" -> Some (RpRejDyn arg) | "rejerr" -> Some (RpRejErr arg) | "boom" -> Some RpBoom | _ -> acc)
+               | _ -> acc) None specs in
+           let rps = List.map rp_of names in
+           let withrp = (match match_doc_rp (attach env rps) toks (nat_of_int fuel) doc with
+            | Ok ((n, r), EOk) -> Printf.sprintf "ok %d %s" (int_of_nat n) (show r)
+            | Ok ((n, _), EErr) -> Printf.sprintf "fail %d" (int_of_nat n)
+            | Ok ((n, _), EDyn) -> Printf.sprintf "dyn %d" (int_of_nat n)
+            | Panic -> "MPANIC" | OutOfFuel -> "FUEL") in
+           (if specs = [] then (if withrp = plain then plain else plain ^ " RP-MODEL-DISAGREES " ^ withrp) else withrp) ^ prod)
       | Panic -> "PPANIC" | OutOfFuel -> "PFUEL" in
     print_string out; print_newline ()
   done with End_of_file -> ()
